@@ -4107,7 +4107,12 @@ impl Machine {
             Ok(num_functors)
         }
 
-        if prec.is_var() {
+        // the exact-match lookup below needs the specifier and the name; with either of
+        // them unbound the candidates are enumerated and current_op/3 filters by priority.
+        if prec.is_var()
+            || self.deref_register(2).is_var()
+            || self.deref_register(3).is_var()
+        {
             let spec = self.deref_register(2);
             let orig_op = self.deref_register(3);
 
